@@ -832,8 +832,8 @@ func (e *Evaluator) createSpeculativeObjects(specObj *Cell) (*Cell, error) {
 	return cell, nil
 }
 
-// existingContainer returns the array or object that now sits where the
-// speculative value spec was missing, or nil if there is none
+// existingContainer returns the value that now sits where the speculative
+// value spec was missing, or nil if there is none (or a null)
 func existingContainer(spec *Value) *Value {
 	if spec.Tag != ValueNil || spec.ParentObj == nil {
 		return nil
@@ -861,9 +861,11 @@ func existingContainer(spec *Value) *Value {
 			cell = owner.Array[index]
 		}
 	}
-	if cell == nil || (cell.Value.Tag != ValueObj && cell.Value.Tag != ValueArray) {
+	if cell == nil || cell.Value.Tag == ValueNil || cell.Value.Tag == ValueUnknown {
 		return nil
 	}
+	// (a scalar is handed back too: storing a member on it is an error, not a
+	// reason to replace it)
 	return &cell.Value
 }
 
